@@ -22,6 +22,18 @@ pub struct BatchOut {
     pub id: String,
 }
 
+/// RNG wrapper that counts the bytes handed out: the model takes the batch weights to be one fresh
+/// `ScalarField::rand` draw per instance, so the real `batch_verify` must consume exactly what drawing
+/// `k` scalars consumes (or nothing when it returns an instance's error before weighting).
+pub struct CountingRng<R: rand_core::RngCore> { pub inner: R, pub bytes: u64 }
+impl<R: rand_core::RngCore> rand_core::RngCore for CountingRng<R> {
+    fn next_u32(&mut self) -> u32 { self.bytes += 4; self.inner.next_u32() }
+    fn next_u64(&mut self) -> u64 { self.bytes += 8; self.inner.next_u64() }
+    fn fill_bytes(&mut self, d: &mut [u8]) { self.bytes += d.len() as u64; self.inner.fill_bytes(d) }
+    fn try_fill_bytes(&mut self, d: &mut [u8]) -> Result<(), rand_core::Error> { self.bytes += d.len() as u64; self.inner.try_fill_bytes(d) }
+}
+impl<R: rand_core::RngCore + rand_core::CryptoRng> rand_core::CryptoRng for CountingRng<R> {}
+
 fn zl<F: ark_ff::PrimeField>(v: &[F]) -> String {
     let items: Vec<String> = v.iter().map(fz).collect();
     format!("[{}]%Z", items.join("; "))
@@ -126,6 +138,7 @@ pub fn gen_and_run<G: AffineRepr>(curve: &str, ci: u64, modulus: &str, seed: u64
         }
         // the real batch_verify, with a replayable RNG for the weights
         let bseed: u64 = rng.gen();
+        let consumed = std::cell::Cell::new(u64::MAX);
         let usable: Vec<_> = data.iter().filter(|(_, o)| o.vproof.is_some()).collect();
         let verdict = catch_unwind(AssertUnwindSafe(|| {
             let mut transcripts: Vec<Transcript> = usable.iter().map(|(c, _)| Transcript::new(c.vlabel)).collect();
@@ -149,17 +162,20 @@ pub fn gen_and_run<G: AffineRepr>(curve: &str, ci: u64, modulus: &str, seed: u64
                 }
                 insts.push((v, o.vproof.as_ref().unwrap()));
             }
-            let mut brng = ChaChaRng::seed_from_u64(bseed);
-            batch_verify(&mut brng, insts, &pc, &bp)
+            let mut brng = CountingRng { inner: ChaChaRng::seed_from_u64(bseed), bytes: 0 };
+            let res = batch_verify(&mut brng, insts, &pc, &bp);
+            consumed.set(brng.bytes);
+            res
         }));
         let vcode = match &verdict {
             Ok(Ok(())) => 0,
             Ok(Err(e)) => err_code(e),
             Err(_) => 99,
         };
-        let mut brng = ChaChaRng::seed_from_u64(bseed);
+        let mut brng = CountingRng { inner: ChaChaRng::seed_from_u64(bseed), bytes: 0 };
         let alphas: Vec<F<G>> = (0..usable.len()).map(|_| F::<G>::rand(&mut brng)).collect();
         let _ = writeln!(obs, "{} 15 {}", id, vcode);
+        let _ = writeln!(obs, "{} 22 {} {}", id, if consumed.get() == u64::MAX { -1i64 } else { consumed.get() as i64 }, brng.bytes);
         let _ = writeln!(obs, "{} 20 {}", id, singles.iter().map(|x| x.to_string()).collect::<Vec<_>>().join(" "));
         let _ = writeln!(obs, "{} 21 {}", id, usable.len());
         let ids: Vec<String> = cases.iter().map(|c| c.id.clone()).collect();
